@@ -1357,3 +1357,165 @@ func contradictory(d []Cond) bool {
 	}
 	return false
 }
+
+// ReachedWhen: the converse of OnlyWhen — some call to callee in fn is reached whenever cond (a conjunction
+// "a & b") holds and the function has not failed: there is a feasible path to the call on which every branch fact
+// is one of cond's conjuncts or an `err == nil` check. Together with OnlyWhen this makes the call happen exactly
+// under cond.
+func (c *Ctx) ReachedWhen(fnSpec, callee, cond, desc string) {
+	role := "reachedwhen/" + callee + "/" + cond
+	callee, cond = c.X(callee), c.X(cond)
+	f := c.Fn(fnSpec)
+	if f == nil {
+		return
+	}
+	calls := c.sites(f, callee)
+	if len(calls) == 0 {
+		c.add("G", fnSpec, role, desc, report.Violated, "no call to "+callee, c.fnPos(f))
+		return
+	}
+	var conj []Cond
+	for _, cj := range strings.Split(cond, " & ") {
+		conj = append(conj, ParseCond(strings.TrimSpace(cj)))
+	}
+	errNil := ParseCond("eq(_,nil)")
+	var seen []string
+	for _, call := range calls {
+		for _, d := range guardDisjuncts(f, call.Block(), 0) {
+			if contradictory(d) {
+				continue
+			}
+			ok := true
+			var ds []string
+			for _, cd := range d {
+				ds = append(ds, cd.String())
+				m := MatchCond(errNil, cd)
+				for _, pc := range conj {
+					if MatchCond(pc, cd) {
+						m = true
+					}
+				}
+				if !m {
+					ok = false
+				}
+			}
+			seen = append(seen, "["+strings.Join(ds, " ∧ ")+"]")
+			if ok {
+				c.add("G", fnSpec, role, desc, report.OK, short(strings.Join(ds, " ∧ ")), c.posOf(call))
+				return
+			}
+		}
+	}
+	c.add("G", fnSpec, role, desc, report.Violated, "every path to the call needs more than the condition: "+short(strings.Join(seen, " ∨ ")), c.posOf(calls[0]))
+}
+
+// PathCase: on every acyclic entry→return path of fn on which every conjunct of cond ("a & b") is established by a
+// branch edge of the path, result idx — with the control-flow joins resolved along that path — matches pattern; at
+// least one such path exists. fn must be loop-free.
+func (c *Ctx) PathCase(fnSpec, cond string, idx int, pattern, desc string) {
+	role := fmt.Sprintf("pathcase%d/%s", idx, cond)
+	cond, pattern = c.X(cond), c.X(pattern)
+	f := c.Fn(fnSpec)
+	if f == nil {
+		return
+	}
+	var conj []Cond
+	for _, cj := range strings.Split(cond, " & ") {
+		conj = append(conj, ParseCond(strings.TrimSpace(cj)))
+	}
+	n, paths := 0, 0
+	var bad string
+	var badPos string
+	var path []*ssa.BasicBlock
+	onPath := map[*ssa.BasicBlock]bool{}
+	var facts []Cond
+	org := ir.NewOrigins(f.Fn)
+	org.PhiChoice = func(phi *ssa.Phi) ssa.Value {
+		at := -1
+		for i, b := range path {
+			if b == phi.Block() {
+				at = i
+			}
+		}
+		if at <= 0 {
+			return nil
+		}
+		for i, p := range phi.Block().Preds {
+			if p == path[at-1] {
+				return phi.Edges[i]
+			}
+		}
+		return nil
+	}
+	var dfs func(b *ssa.BasicBlock) bool
+	dfs = func(b *ssa.BasicBlock) bool {
+		if onPath[b] {
+			return false // loop
+		}
+		paths++
+		if paths > 20000 {
+			return false
+		}
+		onPath[b] = true
+		path = append(path, b)
+		defer func() { onPath[b] = false; path = path[:len(path)-1] }()
+		if ret, ok := b.Instrs[len(b.Instrs)-1].(*ssa.Return); ok {
+			if idx >= len(ret.Results) {
+				return true
+			}
+			for _, pc := range conj {
+				ok := false
+				for _, fc := range facts {
+					if MatchCond(pc, fc) {
+						ok = true
+					}
+				}
+				if !ok {
+					return true
+				}
+			}
+			if contradictory(facts) {
+				return true
+			}
+			n++
+			org.ResetMemo()
+			t := org.Of(ret.Results[idx])
+			if !ir.MatchAny(pattern, t) && bad == "" {
+				bad, badPos = t.String(), c.posOf(ret)
+			}
+			return true
+		}
+		iff, isIf := b.Instrs[len(b.Instrs)-1].(*ssa.If)
+		for i, s := range b.Succs {
+			added := 0
+			if isIf && b.Succs[0] != b.Succs[1] {
+				for _, alt := range expandCond(f, iff.Cond, i == 0, 0) {
+					// only unambiguous expansions contribute facts
+					if len(expandCond(f, iff.Cond, i == 0, 0)) == 1 {
+						facts = append(facts, alt...)
+						added += len(alt)
+					}
+				}
+			}
+			ok := dfs(s)
+			facts = facts[:len(facts)-added]
+			if !ok {
+				return false
+			}
+		}
+		return true
+	}
+	if !dfs(f.Fn.Blocks[0]) {
+		c.add("P", fnSpec, role, desc, report.Undecided, "function has a loop or too many paths for path enumeration", c.fnPos(f))
+		return
+	}
+	if n == 0 {
+		c.add("P", fnSpec, role, desc, report.Violated, "no path establishes "+cond, c.fnPos(f))
+		return
+	}
+	if bad != "" {
+		c.add("P", fnSpec, role, desc, report.Violated, fmt.Sprintf("on a path where %s holds, result %d is %s, want %s", cond, idx, short(bad), pattern), badPos)
+		return
+	}
+	c.add("P", fnSpec, role, desc, report.OK, fmt.Sprintf("%d path(s)", n), c.fnPos(f))
+}
